@@ -343,3 +343,51 @@ def single_instance_gate(ctx) -> List[Tuple[str, bool, str, Any]]:
                 f'`{ast.unparse(bad[0])[:60] if bad else "no return"}`: what is handed out is not `self.items[0]` of the complete result',
                 bad[0] if bad else gsi.node))
     return out
+
+
+# ------------------------------------------------------------------------------------------------------------------
+# name-independent text of an expression (for sibling comparisons)
+# ------------------------------------------------------------------------------------------------------------------
+def alpha_text(node: ast.AST) -> str:
+    """Source text with every comprehension / lambda variable renamed canonically (_v0, _v1 ... in order of binding)."""
+    import copy
+    node = copy.deepcopy(node)
+    mapping: dict = {}
+
+    def bind(t):
+        for x in ast.walk(t):
+            if isinstance(x, ast.Name) and x.id not in mapping:
+                mapping[x.id] = f'_v{len(mapping)}'
+
+    for n in ast.walk(node):
+        if isinstance(n, ast.comprehension):
+            bind(n.target)
+        elif isinstance(n, ast.Lambda):
+            for a in n.args.args:
+                if a.arg not in mapping:
+                    mapping[a.arg] = f'_v{len(mapping)}'
+    for n in ast.walk(node):
+        if isinstance(n, ast.Name) and n.id in mapping:
+            n.id = mapping[n.id]
+        elif isinstance(n, ast.arg) and n.arg in mapping:
+            n.arg = mapping[n.arg]
+    return ast.unparse(node)
+
+
+def expand_aliases(fn: FuncInfo, node: ast.AST, depth: int = 0) -> ast.AST:
+    """Replace local names that are single-definition aliases of attribute chains / names by their definition."""
+    import copy
+    if depth > 4:
+        return node
+    defs = {}
+    for a in iter_own_nodes(fn.node):
+        if isinstance(a, ast.Assign) and len(a.targets) == 1 and isinstance(a.targets[0], ast.Name):
+            defs.setdefault(a.targets[0].id, []).append(a.value)
+
+    class T(ast.NodeTransformer):
+        def visit_Name(self, n):
+            d = defs.get(n.id)
+            if isinstance(n.ctx, ast.Load) and d and len(d) == 1 and isinstance(d[0], (ast.Attribute, ast.Name)):
+                return expand_aliases(fn, copy.deepcopy(d[0]), depth + 1)
+            return n
+    return T().visit(copy.deepcopy(node))
